@@ -106,6 +106,10 @@ static void make_conns(std::vector<Conn>& cs, long mode, vh::Rng& rng) {
             b.e[0] = End{v6, A, p1}; b.e[1] = End{v6, A, (uint16_t)(p2 + 1)}; break;    // one port in common
     }
     cs.push_back(a); cs.push_back(b);
+    // a third party whose (payload-less, SYN-less) segments the follower sees but never tracks: they only make time pass
+    Conn x; x.name = "c3"; x.e[0] = End{v6, v6 ? "2001:db8:9::1" : "10.9.9.1", 7001}; x.e[1] = End{v6, v6 ? "2001:db8:9::2" : "10.9.9.2", 7002};
+    if (mode % 10 == 5) { x.e[0] = End{false, "10.9.9.1", 7001}; x.e[1] = End{false, "10.9.9.2", 7002}; }
+    cs.push_back(x);
 }
 static uint32_t pick_isn(vh::Rng& rng) {
     switch (rng.below(5)) { case 0: return 0xfffffffeu - rng.below(6); case 1: return 0x7ffffffdu + rng.below(5); case 2: return rng.below(3); default: return rng.u32(); }
@@ -132,7 +136,7 @@ static void scenario(const vh::Json& sc, vh::Out& out, vh::Rng& rng, const vh::A
     const vh::Json& pk = sc["pkts"];
     for (size_t i = 0; i < pk.size(); ++i) {
         const vh::Json& p = pk[i];
-        int ci = p["conn"].str() == "c1" ? 0 : 1; Conn& c = ctx.conns[ci]; int from = p["from"].str() == "c" ? 0 : 1;
+        int ci = p["conn"].str() == "c1" ? 0 : p["conn"].str() == "c2" ? 1 : 2; Conn& c = ctx.conns[ci]; int from = p["from"].str() == "c" ? 0 : 1;
         bool syn = p["syn"].truth(), ack = p["ack"].truth(), fin = p["fin"].truth(), rst = p["rst"].truth();
         long off = p["off"].num(), len = p["len"].num(), ackoff = p["ackoff"].num();
         if (p["inc"].truth()) { c.isn[0] = pick_isn(rng); c.isn[1] = pick_isn(rng); }      // a new incarnation of the connection
